@@ -346,7 +346,7 @@ def rule_R10_inspect_err(text, log):
     out = text
     while True:
         mask = code_mask(out)
-        mm = next((m for m in re.finditer(r'\.inspect_err\(\|_\|\s*\{', out) if mask[m.start()]), None)
+        mm = next((m for m in re.finditer(r'\.inspect_err\(\|_\w*\|\s*\{', out) if mask[m.start()]), None)
         if not mm:
             return out
         ob = mm.end() - 1
